@@ -404,7 +404,7 @@ class ExprMixin:
             if cell.opaque:
                 ln = cell.fields.get("len") if cell.fields else None
                 return Bytes([(("heap", v.label or v.ident), ln if ln is not None else Unknown(ty="int"))], "bytearray", origin=("heap", v.ident))
-            return Bytes([(("items", tuple(i.key() for i in cell.items)), Const(len(cell.items)))], "bytearray", origin=("heap", v.ident))
+            return Bytes([(("items", tuple(norm(i).key() for i in cell.items), tuple(cell.items)), Const(len(cell.items)))], "bytearray", origin=("heap", v.ident))
         if isinstance(v, (Sym, Unknown)) and v.ty in ("bytes", "bytearray", "byteslike"):
             ln = v.attrs.get("len") if isinstance(v, Sym) else None
             return Bytes([(("sym", getattr(v, "name", "?")), ln if ln is not None else Unknown(ty="int"))], v.ty)
@@ -676,6 +676,10 @@ class ExprMixin:
         self.refine(node, True, sa, fr)
         self.event(sb, fr, "cond", node, (False, val))
         self.refine(node, False, sb, fr)
+        oc = getattr(self.model, "on_cond", None)
+        if oc is not None:
+            oc(self, sa, fr, node, True, val)
+            oc(self, sb, fr, node, False, val)
         # a test of one single symbolic bit fixes that bit on both branches
         bv = norm(val) if not isinstance(val, tuple) else None
         if isinstance(bv, BitV):
